@@ -23,12 +23,47 @@ func allProps() []string {
 	return ids
 }
 
+// selftests: translator self-test scenarios run at the start of every check that uses the same units.
+var selftestsFor = map[string][]string{
+	"C13": {"wheel", "cache"}, "C15": {"map"}, "C16": {"mpsc"}, "C17": {"ring"}, "C18": {"sketch"},
+}
+
+func selftestJob(name string) *Job {
+	var j *Job
+	switch name {
+	case "sketch":
+		j = mk("selftest.sketch", rootPkg, "ZZ_Selftest_Sketch", nil, func(b *Bounds) { b.Unwind = 8 })
+	case "cache":
+		j = mk("selftest.cache", rootPkg, "ZZ_Selftest_Cache", nil, func(b *Bounds) { b.Unwind = 8 })
+	case "wheel":
+		j = mk("selftest.wheel", expPkg, "ZZ_Selftest_Wheel", nil, func(b *Bounds) { b.Unwind = 8 })
+	case "mpsc":
+		j = mk("selftest.mpsc", queuePkg, "ZZ_Selftest_MPSC", nil, func(b *Bounds) { b.Unwind = 8 })
+	case "ring":
+		j = mk("selftest.ring", lossyPkg, "ZZ_Selftest_Ring", nil, func(b *Bounds) { b.Unwind = 8; b.Procs = 1 })
+	case "map":
+		j = mk("selftest.map", hashmapPkg, "ZZ_Selftest_Map", nil, func(b *Bounds) { b.Unwind = 8 })
+	}
+	j.Selftest = true
+	j.Desc = "translator self-test: deterministic scenario from the repository's own test inputs, engine trace compared with the native build's trace"
+	return j
+}
+
 func jobsFor(id, tier string) []*Job {
 	g := registry[id]
 	if g == nil {
 		return nil
 	}
 	js := g(tier)
+	sts, ok := selftestsFor[id]
+	if !ok {
+		sts = []string{"cache"}
+	}
+	var pre []*Job
+	for _, s := range sts {
+		pre = append(pre, selftestJob(s))
+	}
+	js = append(pre, js...)
 	for _, j := range js {
 		j.Property = id
 	}
